@@ -403,7 +403,7 @@ def applyFn (name : Bytes) (args : List Val) : Out Val :=
     | _ => .error
   else if name == nLength then
     match args with
-    | [.list xs] => .val (.int xs.length)
+    | [.list xs] => intRes xs.length          -- (a length beyond int64 is open)
     | _ => .error
   else if name == nKeys then
     match args with
